@@ -23,6 +23,7 @@ import (
 	"fmt"
 	"io"
 	"net/url"
+	"strings"
 
 	"gocloud.dev/blob"
 	_ "gocloud.dev/blob/azureblob" // to support azure blobs
@@ -126,7 +127,9 @@ func (e *ruleSetEndpoint) readAllBlobs(ctx context.Context, bucket *blob.Bucket)
 func (e *ruleSetEndpoint) sourceOf(key string) string { return fmt.Sprintf("%s@%s", key, e.ID()) }
 
 func (e *ruleSetEndpoint) readSingleBlob(ctx context.Context, bucket *blob.Bucket) ([]*config.RuleSet, error) {
-	ruleSet, err := e.readRuleSet(ctx, bucket, e.URL.Path)
+	// the key of the blob is the path of the url without the leading slash: s3://bucket/rules/my.yaml
+	// refers to the blob rules/my.yaml
+	ruleSet, err := e.readRuleSet(ctx, bucket, strings.TrimPrefix(e.URL.Path, "/"))
 	if err != nil {
 		if errors.Is(err, config.ErrEmptyRuleSet) {
 			return []*config.RuleSet{}, nil
